@@ -6,6 +6,7 @@ CONSTANTS
   StaleKey = FALSE
   NoResplit = FALSE
   PartialOnReject = FALSE
+  SharedOnCopy = FALSE
   Boundary = TRUE
   MaxFull = 5
   Epochs <- E_two
